@@ -477,8 +477,9 @@ class _Expr(ast.NodeTransformer):
         n.values = merged
         return n
 
-    def visit_IfExp(self, n: ast.IfExp):
-        self.generic_visit(n)
+    def visit_IfExp(self, n: ast.IfExp, visited: bool = False):
+        if not visited:
+            self.generic_visit(n)
         t, swap = canon_test(n.test)
         if swap:
             n.body, n.orelse = n.orelse, n.body
@@ -499,6 +500,19 @@ class _Expr(ast.NodeTransformer):
     def visit_Call(self, n: ast.Call):
         self.generic_visit(n)
         f = n.func
+        # (f if c else g)(args)  ->  f(args) if c else g(args)    (c, then the callee, then the arguments: same order)
+        if isinstance(f, ast.IfExp):
+            return self.visit_IfExp(
+                ast.IfExp(
+                    test=f.test,
+                    body=ast.Call(func=f.body, args=n.args, keywords=n.keywords),
+                    orelse=ast.Call(func=f.orelse, args=copy.deepcopy(n.args), keywords=copy.deepcopy(n.keywords)),
+                ),
+                visited=True,
+            )
+        # min / max of plain names and numbers: the order of the arguments does not matter
+        if isinstance(f, ast.Name) and f.id in ("min", "max") and not n.keywords and len(n.args) == 1 and isinstance(n.args[0], ast.List) and all(isinstance(a, ast.Name) or (isinstance(a, ast.Constant) and type(a.value) in (int, float)) for a in n.args[0].elts):
+            n.args[0].elts = sorted(n.args[0].elts, key=dump)
         if isinstance(f, ast.Name) and f.id in SEQ_ARG_BUILTINS and n.args and isinstance(n.args[0], ast.Tuple) and len(n.args) == 1:
             n.args[0] = ast.List(elts=n.args[0].elts, ctx=ast.Load())
         if isinstance(f, ast.Name) and f.id == "len" and len(n.args) == 1 and not n.keywords and isinstance(n.args[0], ast.Constant) and isinstance(n.args[0].value, (str, bytes)):
@@ -640,6 +654,77 @@ def canon_test(t: ast.expr) -> Tuple[ast.expr, bool]:
 
 
 # --------------------------------------------------------------------------------------------- statements
+def _num(e: ast.AST) -> Optional[float]:
+    if isinstance(e, ast.Constant) and type(e.value) in (int, float):
+        return e.value
+    if isinstance(e, ast.UnaryOp) and isinstance(e.op, ast.USub) and isinstance(e.operand, ast.Constant) and type(e.operand.value) in (int, float):
+        return -e.operand.value
+    return None
+
+
+def _range_of(t: ast.expr) -> Optional[Tuple[str, float, bool, float, bool]]:
+    """A test that is a conjunction of comparisons of ONE plain name with numeric constants, as (name, lo, lo_open, hi, hi_open)."""
+    parts = t.values if isinstance(t, ast.BoolOp) and isinstance(t.op, ast.And) else [t]
+    name: Optional[str] = None
+    lo, lo_open, hi, hi_open = float("-inf"), True, float("inf"), True
+    for c in parts:
+        if not (isinstance(c, ast.Compare) and len(c.ops) == 1):
+            return None
+        op, l, r = c.ops[0], c.left, c.comparators[0]
+        if isinstance(op, ast.Gt):
+            op, l, r = ast.Lt(), r, l
+        elif isinstance(op, ast.GtE):
+            op, l, r = ast.LtE(), r, l
+        if isinstance(l, ast.Name) and _num(r) is not None:
+            nm, k, side = l.id, _num(r), "hi"
+        elif isinstance(r, ast.Name) and _num(l) is not None:
+            nm, k, side = r.id, _num(l), "lo"
+        else:
+            return None
+        if name is not None and nm != name:
+            return None
+        name = nm
+        if isinstance(op, ast.Eq):
+            nlo, nlo_open, nhi, nhi_open = k, False, k, False
+        elif isinstance(op, (ast.Lt, ast.LtE)):
+            strict = isinstance(op, ast.Lt)
+            if side == "hi":
+                nlo, nlo_open, nhi, nhi_open = float("-inf"), True, k, strict
+            else:
+                nlo, nlo_open, nhi, nhi_open = k, strict, float("inf"), True
+        else:
+            return None
+        if nlo > lo or (nlo == lo and nlo_open):
+            lo, lo_open = nlo, nlo_open
+        if nhi < hi or (nhi == hi and nhi_open):
+            hi, hi_open = nhi, nhi_open
+    if name is None:
+        return None
+    return (name, lo, lo_open, hi, hi_open)
+
+
+def _ranges_apart(a, b) -> bool:
+    _, alo, alo_o, ahi, ahi_o = a
+    _, blo, blo_o, bhi, bhi_o = b
+    if ahi < blo or (ahi == blo and (ahi_o or blo_o)):
+        return True
+    if bhi < alo or (bhi == alo and (bhi_o or alo_o)):
+        return True
+    return False
+
+
+def _rebinds(block: list, name: str) -> bool:
+    for st in block:
+        for n in ast.walk(st):
+            if isinstance(n, ast.Name) and n.id == name and isinstance(n.ctx, (ast.Store, ast.Del)):
+                return True
+            if isinstance(n, (ast.Global, ast.Nonlocal)) and name in n.names:
+                return True
+            if isinstance(n, ast.ExceptHandler) and n.name == name:
+                return True
+    return False
+
+
 def _merge_calls(st: ast.If, a: ast.stmt, b: ast.stmt) -> Optional[ast.stmt]:
     """if c: f(X, A) else: f(X, B)  ->  f(X, A if c else B)   (f and the common arguments are plain names/attributes)"""
     if not (isinstance(a, ast.Expr) and isinstance(b, ast.Expr) and isinstance(a.value, ast.Call) and isinstance(b.value, ast.Call)):
@@ -704,6 +789,10 @@ class Normaliser:
             out, c = self._merge_equal_arms(out)
             changed |= c
             out, c = self._close_to_with(out)
+            changed |= c
+            out, c = self._disjoint_ifs(out)
+            changed |= c
+            out, c = self._mirrored_range_loops(out)
             changed |= c
         return out
 
@@ -889,6 +978,74 @@ class Normaliser:
                 if isinstance(last, ast.Assign) and len(last.targets) == 1 and isinstance(last.targets[0], ast.Name) and last.targets[0].id == nx.value.id:
                     st.body = st.body[:-1] + [ast.Return(value=last.value)]
                     return out[: i + 1] + out[i + 2 :], True
+        return out, False
+
+    def _disjoint_ifs(self, out: list) -> Tuple[list, bool]:
+        """if A: X        followed by   if B: Y [elif C: Z ...] (no final else)     ->   if A: X elif B: Y [elif C: Z ...]
+        when A excludes B, C, ... (ranges of one local name against numeric constants that do not meet) and X does not
+        rebind that name: with A true the second statement does nothing, with A false the first one does nothing."""
+        for i in range(len(out) - 2, -1, -1):
+            a, b = out[i], out[i + 1]
+            if not (isinstance(a, ast.If) and not a.orelse and isinstance(b, ast.If)):
+                continue
+            ra = _range_of(a.test)
+            if ra is None:
+                continue
+            chain, cur, ok = [], b, True
+            while True:
+                rb = _range_of(cur.test)
+                if rb is None or rb[0] != ra[0] or not _ranges_apart(ra, rb):
+                    ok = False
+                    break
+                chain.append(cur)
+                if not cur.orelse:
+                    break
+                if len(cur.orelse) == 1 and isinstance(cur.orelse[0], ast.If):
+                    cur = cur.orelse[0]
+                    continue
+                ok = False
+                break
+            if not ok or _rebinds(a.body, ra[0]):
+                continue
+            new = ast.If(test=a.test, body=a.body, orelse=[b])
+            return out[:i] + [new] + out[i + 2 :], True
+        return out, False
+
+    def _mirrored_range_loops(self, out: list) -> Tuple[list, bool]:
+        """if x < y: for t in range(x, y): B    elif y < x: for t in range(y, x): B     ->   for t in range(min([x, y]), max([x, y])): B
+        (x == y: nothing happens on either side)"""
+        for i, st in enumerate(out):
+            if not (isinstance(st, ast.If) and len(st.body) == 1 and len(st.orelse) == 1 and isinstance(st.orelse[0], ast.If) and not st.orelse[0].orelse and len(st.orelse[0].body) == 1):
+                continue
+            t1, t2 = st.test, st.orelse[0].test
+            l1, l2 = st.body[0], st.orelse[0].body[0]
+
+            def lt(t):
+                if isinstance(t, ast.Compare) and len(t.ops) == 1 and isinstance(t.ops[0], ast.Lt) and isinstance(t.left, ast.Name) and isinstance(t.comparators[0], ast.Name):
+                    return (t.left.id, t.comparators[0].id)
+                return None
+
+            def rng(l):
+                if isinstance(l, ast.For) and not l.orelse and isinstance(l.target, ast.Name) and isinstance(l.iter, ast.Call) and isinstance(l.iter.func, ast.Name) and l.iter.func.id == "range" and len(l.iter.args) == 2 and not l.iter.keywords and all(isinstance(a, ast.Name) for a in l.iter.args):
+                    return (l.iter.args[0].id, l.iter.args[1].id)
+                return None
+
+            p1, p2 = lt(t1), lt(t2)
+            if p1 is None or p2 is None or p1 != (p2[1], p2[0]) or p1[0] == p1[1]:
+                continue
+            if rng(l1) != p1 or rng(l2) != p2:
+                continue
+            if l1.target.id in p1 or l2.target.id in p1 or _rebinds(l1.body, p1[0]) or _rebinds(l1.body, p1[1]):
+                continue
+            if _rebinds(l2.body, l2.target.id) or _rebinds(l1.body, l1.target.id):
+                continue
+            b2 = subst(copy.deepcopy(l2.body), {l2.target.id: ast.Name(id=l1.target.id, ctx=ast.Load())})[0]
+            if [dump(x) for x in l1.body] != [dump(x) for x in b2]:
+                continue
+            pair = sorted([ast.Name(id=p1[0], ctx=ast.Load()), ast.Name(id=p1[1], ctx=ast.Load())], key=dump)
+            mk = lambda f: ast.Call(func=ast.Name(id=f, ctx=ast.Load()), args=[ast.List(elts=copy.deepcopy(pair), ctx=ast.Load())], keywords=[])  # noqa: E731
+            new = ast.For(target=l1.target, iter=ast.Call(func=ast.Name(id="range", ctx=ast.Load()), args=[mk("min"), mk("max")], keywords=[]), body=l1.body, orelse=[])
+            return out[:i] + [new] + out[i + 1 :], True
         return out, False
 
     def _setdefault_idiom(self, out: list) -> Tuple[list, bool]:
@@ -1254,6 +1411,35 @@ class Normaliser:
             pre, v = self._uncomp(st.value)
             if pre:
                 return self.block(pre + [ast.Assign(targets=st.targets, value=v)])
+        # (a, b) = [resolve1](D.get(k, (x, y)))  ->  default written as a list: it is only ever unpacked
+        if len(st.targets) == 1 and isinstance(st.targets[0], (ast.Tuple, ast.List)):
+            c = st.value
+            if isinstance(c, ast.Call) and isinstance(c.func, ast.Name) and c.func.id == "resolve1" and len(c.args) == 1 and not c.keywords:
+                c = c.args[0]
+            if isinstance(c, ast.Call) and isinstance(c.func, ast.Attribute) and c.func.attr == "get" and len(c.args) == 2 and not c.keywords and isinstance(c.args[1], ast.Tuple) and all(isinstance(e, ast.Constant) or (isinstance(e, ast.UnaryOp) and isinstance(e.operand, ast.Constant)) for e in c.args[1].elts):
+                c.args[1] = ast.List(elts=c.args[1].elts, ctx=ast.Load())
+        # (lo, hi) = (y, x) if y < x else (x, y)  ->  lo = min([x, y]); hi = max([x, y])      (numbers)
+        if len(st.targets) == 1 and isinstance(st.targets[0], ast.Tuple) and len(st.targets[0].elts) == 2 and all(isinstance(t, ast.Name) for t in st.targets[0].elts) and isinstance(st.value, ast.IfExp):
+            v = st.value
+            t = v.test
+            if (
+                isinstance(t, ast.Compare) and len(t.ops) == 1 and isinstance(t.ops[0], (ast.Lt, ast.LtE))
+                and isinstance(t.left, ast.Name) and isinstance(t.comparators[0], ast.Name)
+                and isinstance(v.body, ast.Tuple) and isinstance(v.orelse, ast.Tuple) and len(v.body.elts) == 2 and len(v.orelse.elts) == 2
+            ):
+                a_, b_ = t.left.id, t.comparators[0].id  # a_ < b_
+                names = lambda tp: [e.id if isinstance(e, ast.Name) else None for e in tp.elts]  # noqa: E731
+                tg = [x.id for x in st.targets[0].elts]
+                if a_ != b_ and not ({a_, b_} & set(tg)) and tg[0] != tg[1]:
+                    lohi = None
+                    if names(v.body) == [a_, b_] and names(v.orelse) == [b_, a_]:
+                        lohi = (tg[0], tg[1])
+                    elif names(v.body) == [b_, a_] and names(v.orelse) == [a_, b_]:
+                        lohi = (tg[1], tg[0])
+                    if lohi is not None:
+                        pair = sorted([ast.Name(id=a_, ctx=ast.Load()), ast.Name(id=b_, ctx=ast.Load())], key=dump)
+                        mk = lambda f, tgt: ast.Assign(targets=[ast.Name(id=tgt, ctx=ast.Store())], value=ast.Call(func=ast.Name(id=f, ctx=ast.Load()), args=[ast.List(elts=copy.deepcopy(pair), ctx=ast.Load())], keywords=[]))  # noqa: E731
+                        return [mk("min", lohi[0]), mk("max", lohi[1])]
         # q, r = divmod(a, b)  ->  q = a // b; r = a % b   (simple operands)
         if (
             len(st.targets) == 1
@@ -2393,6 +2579,73 @@ def _list_locals(fn: ast.AST) -> Set[str]:
 
 
 # --------------------------------------------------------------------------------------------- the normal form
+def _blocks_of(fn: ast.AST) -> Iterable[list]:
+    """Every statement list of fn (nested functions excluded)."""
+    stack = [fn]
+    while stack:
+        n = stack.pop()
+        for fld in ("body", "orelse", "finalbody"):
+            b = getattr(n, fld, None)
+            if isinstance(b, list) and b and isinstance(b[0], ast.stmt):
+                yield b
+                for st in b:
+                    if not isinstance(st, FuncNode) and not isinstance(st, ast.ClassDef):
+                        stack.append(st)
+        for h in getattr(n, "handlers", []) or []:
+            stack.append(h)
+
+
+def find_idiom(fn: ast.AST) -> bool:
+    """if A in S: v = S.index(A); REST  else: E      ->      v = S.find(A);  if v == -1: E  else: REST
+    A a str/bytes constant (so S is a str/bytes: `find` exists and agrees with `in`/`index`), S a plain path that
+    evaluating `A in S` cannot change, v a local stored nowhere else and read only in REST.
+    Also  v = S.find(A); if v >= 0 / v > -1 / v < 0   ->   v != -1 / v == -1   (find returns -1 or an index)."""
+    changed = False
+    for block in _blocks_of(fn):
+        for i, st in enumerate(block):
+            if isinstance(st, ast.Assign) and len(st.targets) == 1 and isinstance(st.targets[0], ast.Name) and isinstance(st.value, ast.Call) and isinstance(st.value.func, ast.Attribute) and st.value.func.attr in ("find", "rfind") and i + 1 < len(block) and isinstance(block[i + 1], ast.If):
+                v = st.targets[0].id
+                nx = block[i + 1]
+
+                def fix(t: ast.expr) -> ast.expr:
+                    if isinstance(t, ast.BoolOp):
+                        t.values = [fix(x) for x in t.values]
+                        return t
+                    if isinstance(t, ast.Compare) and len(t.ops) == 1:
+                        l, op, r = t.left, t.ops[0], t.comparators[0]
+                        isv = lambda e: isinstance(e, ast.Name) and e.id == v  # noqa: E731
+                        mk = lambda o: ast.Compare(left=ast.Name(id=v, ctx=ast.Load()), ops=[o], comparators=[ast.UnaryOp(op=ast.USub(), operand=ast.Constant(value=1))])  # noqa: E731
+                        if (isv(r) and _num(l) == 0 and isinstance(op, ast.LtE)) or (isv(l) and _num(r) == 0 and isinstance(op, ast.GtE)) or (isv(r) and _num(l) == -1 and isinstance(op, ast.Lt)) or (isv(l) and _num(r) == -1 and isinstance(op, ast.Gt)):
+                            return mk(ast.NotEq())
+                        if (isv(l) and _num(r) == 0 and isinstance(op, ast.Lt)) or (isv(r) and _num(l) == 0 and isinstance(op, ast.Gt)) or (isv(l) and _num(r) == -1 and isinstance(op, ast.LtE)) or (isv(r) and _num(l) == -1 and isinstance(op, ast.GtE)):
+                            return mk(ast.Eq())
+                    return t
+
+                before = dump(nx.test)
+                nx.test = fix(nx.test)
+                changed |= dump(nx.test) != before
+            if not (isinstance(st, ast.If) and st.body and isinstance(st.test, ast.Compare) and len(st.test.ops) == 1 and isinstance(st.test.ops[0], ast.In)):
+                continue
+            A, S = st.test.left, st.test.comparators[0]
+            if not (isinstance(A, ast.Constant) and isinstance(A.value, (str, bytes)) and _path(S) is not None):
+                continue
+            a = st.body[0]
+            if not (isinstance(a, ast.Assign) and len(a.targets) == 1 and isinstance(a.targets[0], ast.Name) and isinstance(a.value, ast.Call) and isinstance(a.value.func, ast.Attribute) and a.value.func.attr == "index" and len(a.value.args) == 1 and not a.value.keywords and dump(a.value.func.value) == dump(S) and dump(a.value.args[0]) == dump(A)):
+                continue
+            v = a.targets[0].id
+            loads, stores = count_name(fn, v)
+            rl, rs = count_name(st.body[1:], v)
+            if stores != 1 or loads != rl or rs != 0 or v in names_in(S):
+                continue
+            new_assign = ast.Assign(targets=[ast.Name(id=v, ctx=ast.Store())], value=ast.Call(func=ast.Attribute(value=copy.deepcopy(S), attr="find", ctx=ast.Load()), args=[copy.deepcopy(A)], keywords=[]))
+            test = ast.Compare(left=ast.Name(id=v, ctx=ast.Load()), ops=[ast.Eq()], comparators=[ast.UnaryOp(op=ast.USub(), operand=ast.Constant(value=1))])
+            rest = st.body[1:] or [ast.Pass()]
+            new_if = ast.If(test=test, body=st.orelse or [ast.Pass()], orelse=rest)
+            block[i : i + 1] = [new_assign, new_if]
+            return True
+    return changed
+
+
 def normal_form(fn: ast.AST, ctx: Ctx) -> str:
     g = copy.deepcopy(fn)
     _Strip().visit(g)
@@ -2408,6 +2661,7 @@ def normal_form(fn: ast.AST, ctx: Ctx) -> str:
         for sub in ast.walk(g):
             if isinstance(sub, FuncNode):
                 split_webs(sub)
+        find_idiom(g)
         forward_substitute(g)
         coalesce_copies(g)
         _StripMsg().visit(g)
